@@ -28,6 +28,7 @@ PreciseOK(e, g) == Len(e.cats) = Len(g.cats) /\ AEq(e.psum, g.psum) /\ \A a \in 
 \* first part of the result that differs from the reference
 Diff(e, g) ==
     IF Len(e.lines) # Len(g.lines) THEN "shape"
+    ELSE IF \E j \in DOMAIN e.lines : e.lines[j].subs # g.lines[j].subs THEN "line-breakdown"
     ELSE IF \E j \in DOMAIN e.lines : e.lines[j].price # g.lines[j].price THEN "line-price"
     ELSE IF \E j \in DOMAIN e.lines : e.lines[j].sum # g.lines[j].sum THEN "line-sum"
     ELSE IF \E j \in DOMAIN e.lines : e.lines[j].damts # g.lines[j].damts \/ e.lines[j].camts # g.lines[j].camts THEN "line-adjustment"
@@ -51,6 +52,7 @@ FixedAtCd(d) ==
     /\ \A j \in DOMAIN d.lines :
           /\ \A k \in DOMAIN d.lines[j].discounts : d.lines[j].discounts[k].amount.e <= d.cd
           /\ \A k \in DOMAIN d.lines[j].charges : d.lines[j].charges[k].amount.e <= d.cd /\ ~Has(d.lines[j].charges[k].rate)
+          /\ d.lines[j].subs = <<>>      \* C03 speaks of lines; a breakdown's price may carry the sub-lines' precision
     /\ \A j \in DOMAIN d.discounts : d.discounts[j].amount.e <= d.cd
     /\ \A j \in DOMAIN d.charges : d.charges[j].amount.e <= d.cd
     /\ \A j \in DOMAIN d.advances : d.advances[j].amount.e <= d.cd
@@ -67,6 +69,7 @@ Features(d) == IF \E j \in DOMAIN d.lines : \E k \in DOMAIN d.lines[j].discounts
 \* domain of C01/C05: every figure stays far enough inside 2^52 units for the intermediate products
 Small(a) == Within52(MulPow10(a.v, 4))
 InDomainRes(m) == /\ \A j \in DOMAIN m.lines : Small(m.lines[j].sum) /\ Small(m.lines[j].total) /\ Small(m.lines[j].price)
+                  /\ \A j \in DOMAIN m.lines : \A k \in DOMAIN m.lines[j].subs : Small(m.lines[j].subs[k].sum) /\ Small(m.lines[j].subs[k].total)
                   /\ Small(m.w.sum) /\ Small(m.w.total) /\ Small(m.w.twt) /\ Small(m.w.payable) /\ Small(m.w.tax)
 
 PermLines(r, perm) == [r EXCEPT !.lines = [j \in DOMAIN perm |-> r.lines[perm[j]]]]
@@ -84,10 +87,12 @@ Verdict(ev) ==
                      ELSE IF ev.d.rr = "currency" /\ FixedAtCd(ev.d) /\ ~NoExtraDecimals(ev.d, ev.r) THEN "c03-extra-decimals"
                      ELSE "ok"
       [] ev.k = "invert" ->
-            IF ~ev.ok2 THEN "invert-refused:" \o Features(ev.d)
+            IF ~InDomainRes(Calculate(ev.d)) THEN "out-of-domain"
+            ELSE IF ~ev.ok2 THEN "invert-refused:" \o Features(ev.d)
             ELSE LET df == Diff(Logged(NegRes(Calculate(ev.d))), ev.r2) IN IF df \in {"ok", "taxes-precise"} THEN "ok" ELSE "invert-" \o df
       [] ev.k = "invert2" ->
-            IF ~ev.ok2 THEN "invert2-refused"
+            IF ~InDomainRes(Calculate(ev.d)) THEN "out-of-domain"
+            ELSE IF ~ev.ok2 THEN "invert2-refused"
             ELSE LET df == Diff(Logged(Calculate(ev.d)), ev.r2) IN IF df \in {"ok", "taxes-precise"} THEN "ok" ELSE "invert2-" \o df
       [] ev.k = "permute" ->
             IF ~ev.ok2 THEN "permute-refused"
